@@ -5,6 +5,20 @@ import json
 ALL = [f"C{i:02d}" for i in range(1, 20)]
 
 CHECKS = {
+    "C04": dict(
+        category="exploration", engine="E1+E4", design_ref="DESIGN.md 2.1, 2.4, 2.5, 3/C04",
+        technique="bounded-exhaustive enumeration of generated models x instances x factories x dict/JSON routes, with set-iteration order of the decoder owned as a choice point",
+        text=("Every G-model binding model without anyType fields within the deviation bound x full product of value alphabets x {dict, filter_none} x "
+              "{DictEncoder/DictDecoder, JsonSerializer/JsonParser} x single object / list document; the encoded form must be JSON-native and json.dumps-able "
+              "and decode back to an equal object. xsdata's dict decoder, encoder and context are loaded through the set-order owning transform so that "
+              "address-dependent set iteration is explored as a choice (this is how the nondeterministic subclass selection was found)."),
+        note="documented JSON limitations (compound choices needing intermediate types / subclasses) excluded by construction; one open known finding"),
+    "C18": dict(
+        category="exploration", engine="E1", design_ref="DESIGN.md 2.1, 2.5, 3/C18",
+        technique="bounded-exhaustive enumeration of generated models x instances; rendered source exec'd in an empty namespace",
+        text=("Every G-model binding model within the bound (incl. inner classes/enums, frozen+tuples, generics, attribute maps) x full product of value alphabets: "
+              "PycodeSerializer.render output is executed in an empty namespace and the bound variable compared structurally (exact types, NaN-aware)."),
+        note="the synthetic model module is importable while the source runs; equality is structural"),
     "C01": dict(
         category="exploration", engine="E1", design_ref="DESIGN.md 2.1, 2.5, 3/C01",
         technique="bounded-exhaustive enumeration of generated binding models x instances x serializer configs x backends, round-trip oracle",
